@@ -285,7 +285,9 @@ class Key(AbstractKey):
         :param name: the Name of the Key to delete.
         :type name: :any:`NonStrictName`
         """
-        return self.pib.del_cert(name)
+        name = Name.to_bytes(name)
+        if name in self:  # a Key only acts on its own Certificates
+            return self.pib.del_cert(name)
 
     def has_default_cert(self) -> bool:
         """
@@ -306,7 +308,8 @@ class Key(AbstractKey):
         :type name: :any:`NonStrictName`
         """
         name = Name.to_bytes(name)
-        self.pib._apply(('UPDATE certificates SET is_default=1 WHERE certificate_name=?', (name,)))
+        # a Key only acts on its own Certificates
+        self.pib._apply(('UPDATE certificates SET is_default=1 WHERE certificate_name=? AND key_id=?', (name, self.row_id)))
 
     def default_cert(self) -> Certificate:
         """
@@ -383,7 +386,9 @@ class Identity(AbstractIdentity):
         :param name: the Name of the Key to delete.
         :type name: :any:`NonStrictName`
         """
-        return self.pib.del_key(name)
+        name = Name.to_bytes(name)
+        if name in self:  # an Identity only acts on its own Keys
+            return self.pib.del_key(name)
 
     def new_key(self, key_type: str) -> Key:
         """
@@ -413,7 +418,8 @@ class Identity(AbstractIdentity):
         :type name: :any:`NonStrictName`
         """
         name = Name.to_bytes(name)
-        self.pib._apply(('UPDATE keys SET is_default=1 WHERE key_name=?', (name,)))
+        # an Identity only acts on its own Keys
+        self.pib._apply(('UPDATE keys SET is_default=1 WHERE key_name=? AND identity_id=?', (name, self.row_id)))
 
     def default_key(self) -> Key:
         """
